@@ -97,6 +97,34 @@ class Repo:
                     for al in node.names:
                         self.imports[mod][al.asname or al.name] = (al.name, None)
         self.digest = self.digest.hexdigest()
+        # lemma programs (verification-side client code executed against the contracts only): /verif/lemmas/py/*.py
+        ldir = os.path.join(os.path.dirname(os.path.dirname(os.path.abspath(__file__))), 'lemmas', 'py')
+        self.lemma_modules = []
+        if os.path.isdir(ldir):
+            for fn in sorted(os.listdir(ldir)):
+                if not fn.endswith('.py'):
+                    continue
+                path = os.path.join(ldir, fn)
+                mod = 'lemma_' + fn[:-3]
+                tree = ast.parse(open(path).read(), filename=path)
+                self.modules[mod] = tree
+                self.globals[mod] = {}
+                self.imports[mod] = {}
+                self.lemma_modules.append(mod)
+                for node in tree.body:
+                    if isinstance(node, ast.FunctionDef):
+                        fi = FuncInfo(mod, None, node, path)
+                        self.funcs[fi.qual] = fi
+                    elif isinstance(node, ast.Assign):
+                        for t in node.targets:
+                            if isinstance(t, ast.Name):
+                                self.globals[mod][t.id] = node.value
+                    elif isinstance(node, ast.ImportFrom):
+                        for al in node.names:
+                            self.imports[mod][al.asname or al.name] = (node.module, al.name)
+                    elif isinstance(node, ast.Import):
+                        for al in node.names:
+                            self.imports[mod][al.asname or al.name] = (al.name, None)
 
     def _add_class(self, mod, node, path, prefix=''):
         ci = ClassInfo(mod, node)
@@ -150,6 +178,28 @@ class Repo:
             if attr in self.classes[c].class_attrs:
                 return self.classes[c].class_attrs[attr], c
         return None, None
+
+    def assigned_attrs(self, clsname):
+        """names a with an assignment `self.a = ...` (or augmented / annotated) in some method of clsname or its bases"""
+        cache = self.__dict__.setdefault('_assigned', {})
+        if clsname not in cache:
+            out = set()
+            for c in self.mro(clsname):
+                ci = self.classes.get(c)
+                if ci is None:
+                    continue
+                for node in ast.walk(ci.node):
+                    tgts = []
+                    if isinstance(node, ast.Assign):
+                        tgts = node.targets
+                    elif isinstance(node, (ast.AugAssign, ast.AnnAssign)):
+                        tgts = [node.target]
+                    for t in tgts:
+                        for e in ast.walk(t):
+                            if isinstance(e, ast.Attribute) and isinstance(e.value, ast.Name) and e.value.id == 'self':
+                                out.add(e.attr)
+            cache[clsname] = out
+        return cache[clsname]
 
     def func(self, qual):
         return self.funcs[qual]
